@@ -300,19 +300,44 @@ func RunMulti(o env.Options, fs []*Fault, action HookAction, do func(e *env.Env)
 		}()
 		sr.Res = do(e)
 	}()
-	select {
-	case <-done:
-		e.Drv.Cur = prevCur
-		fam.Sink = nil
-	case <-time.After(HangTimeout):
-		e.Drv.Passive = true
-		hung := sched.BlockedInGorm()
-		fam.Sink = func(fam.HookCall) error { return nil }
-		if len(hung) == 0 {
-			return nil, fmt.Errorf("the operation did not return within %v and no goroutine is blocked on a lock or channel inside gorm", HangTimeout)
+	finished := func(d time.Duration) bool {
+		select {
+		case <-done:
+			return true
+		case <-time.After(d):
+			return false
 		}
-		return &SingleRun{Hung: hung, D0: sr.D0, D1: sr.D0}, nil
 	}
+	if !finished(HangTimeout) {
+		// stuck, or only slow (a loaded machine)?  Stuck = a goroutine sits on a lock or
+		// channel inside gorm now and still does a few seconds later.
+		hung := sched.BlockedInGorm()
+		var still []string
+		if len(hung) > 0 && !finished(3*time.Second) {
+			now := map[string]int{}
+			for _, b := range sched.BlockedInGorm() {
+				now[b]++
+			}
+			for _, b := range hung {
+				if now[b] > 0 {
+					now[b]--
+					still = append(still, b)
+				}
+			}
+		}
+		if len(still) > 0 {
+			e.Drv.Passive = true
+			fam.Sink = func(fam.HookCall) error { return nil }
+			return &SingleRun{Hung: still, D0: sr.D0, D1: sr.D0}, nil
+		}
+		if !finished(5 * HangTimeout) {
+			e.Drv.Passive = true
+			fam.Sink = func(fam.HookCall) error { return nil }
+			return nil, fmt.Errorf("the operation did not return within %v and no goroutine is blocked on a lock or channel inside gorm", 6*HangTimeout)
+		}
+	}
+	e.Drv.Cur = prevCur
+	fam.Sink = nil
 	sr.InUse = e.Pool.Stats().InUse
 	for i := 0; sr.InUse != 0 && i < 8000; i++ { // up to 4 s, only spent while something is still checked out
 		// database/sql's context watcher releases a cancelled transaction's connection asynchronously
